@@ -104,6 +104,11 @@ func newReadOnlySegment(basePath string, baseOffset int64) (ReadOnlySegment, err
 		}
 	}
 
+	if len(ms.idx) < 4 {
+		// no entry at all (e.g. the txn file starts with zeroes): there is no last record to read
+		return nil, errors.Wrapf(codec.ErrDataCorrupted, "empty index for segment txn file %s", ms.c.txnPath)
+	}
+
 	ms.lastOffset = ms.c.baseOffset + int64(len(ms.idx)/4-1)
 
 	// recover the last crc
